@@ -429,5 +429,212 @@ theorem pmod_zero (m : ℝ) : pmod 0 m = 0 := by
   show (0:ℝ) - (⌊(0:ℝ) / m⌋ : ℝ) * m = 0
   simp
 
+/-! ### `segMeet` decides `SegMeetProp` (two closed segments share a point) -/
+
+theorem param_onSeg (a b p : P2 ℝ) (s : ℝ) (h0 : 0 ≤ s) (h1 : s ≤ 1)
+    (hx : p.x = a.x + s * (b.x - a.x)) (hy : p.y = a.y + s * (b.y - a.y)) : onSeg a b p = true := by
+  rw [onSeg_iff]
+  have h1' : 0 ≤ 1 - s := sub_nonneg.2 h1
+  refine ⟨?_, ?_, ?_⟩
+  · unfold orient; rw [hx, hy]; ring
+  · rcases le_total a.x b.x with h | h
+    · left; constructor <;> nlinarith [mul_nonneg h0 (sub_nonneg.2 h), mul_nonneg h1' (sub_nonneg.2 h)]
+    · right; constructor <;> nlinarith [mul_nonneg h0 (sub_nonneg.2 h), mul_nonneg h1' (sub_nonneg.2 h)]
+  · rcases le_total a.y b.y with h | h
+    · left; constructor <;> nlinarith [mul_nonneg h0 (sub_nonneg.2 h), mul_nonneg h1' (sub_nonneg.2 h)]
+    · right; constructor <;> nlinarith [mul_nonneg h0 (sub_nonneg.2 h), mul_nonneg h1' (sub_nonneg.2 h)]
+
+theorem frac_between (u v w : ℝ) (hne : v - u ≠ 0) (hb : (u ≤ w ∧ w ≤ v) ∨ (v ≤ w ∧ w ≤ u)) :
+    0 ≤ (w - u) / (v - u) ∧ (w - u) / (v - u) ≤ 1 := by
+  rcases lt_or_gt_of_ne hne with h | h
+  · -- v - u < 0
+    have hb' : v ≤ w ∧ w ≤ u := by
+      rcases hb with hb | hb
+      · exact ⟨by linarith, by linarith⟩
+      · exact hb
+    exact ⟨div_nonneg_of_nonpos (by linarith) h.le, (div_le_one_of_neg h).2 (by linarith)⟩
+  · have hb' : u ≤ w ∧ w ≤ v := by
+      rcases hb with hb | hb
+      · exact hb
+      · exact ⟨by linarith, by linarith⟩
+    exact ⟨div_nonneg (by linarith) h.le, (div_le_one h).2 (by linarith)⟩
+
+theorem onSeg_param (a b p : P2 ℝ) (h : onSeg a b p = true) :
+    ∃ s, 0 ≤ s ∧ s ≤ 1 ∧ p.x = a.x + s * (b.x - a.x) ∧ p.y = a.y + s * (b.y - a.y) := by
+  rw [onSeg_iff] at h; obtain ⟨ho, hx, hy⟩ := h
+  unfold orient at ho
+  by_cases hxne : b.x - a.x = 0
+  · by_cases hyne : b.y - a.y = 0
+    · refine ⟨0, le_refl _, zero_le_one, ?_, ?_⟩
+      · rcases hx with hx | hx <;> linarith [hx.1, hx.2]
+      · rcases hy with hy | hy <;> linarith [hy.1, hy.2]
+    · obtain ⟨h0, h1⟩ := frac_between a.y b.y p.y hyne hy
+      refine ⟨_, h0, h1, ?_, ?_⟩
+      · rw [hxne, mul_zero, add_zero]
+        rw [hxne, zero_mul, zero_sub, neg_eq_zero, mul_eq_zero] at ho
+        rcases ho with ho | ho
+        · exact absurd ho hyne
+        · linarith
+      · field_simp; ring
+  · obtain ⟨h0, h1⟩ := frac_between a.x b.x p.x hxne hx
+    refine ⟨_, h0, h1, ?_, ?_⟩
+    · field_simp; ring
+    · field_simp; linarith
+
+theorem frac_opp (u v : ℝ) (h : oppositeSigns u v = true) :
+    u - v ≠ 0 ∧ 0 ≤ u / (u - v) ∧ u / (u - v) ≤ 1 := by
+  rw [oppositeSigns_iff] at h
+  rcases h with ⟨hu, hv⟩ | ⟨hu, hv⟩
+  · have hd : 0 < u - v := by linarith
+    exact ⟨hd.ne', div_nonneg hu.le hd.le, (div_le_one hd).2 (by linarith)⟩
+  · have hd : u - v < 0 := by linarith
+    exact ⟨hd.ne, div_nonneg_of_nonpos hu.le hd.le, (div_le_one_of_neg hd).2 (by linarith)⟩
+
+theorem segMeet_imp_exists (a b c d : P2 ℝ) (h : segMeet a b c d = true) : SegMeetProp a b c d := by
+  unfold SegMeetProp
+  simp only [lit_zero, lit_one]
+  rw [segMeet_iff] at h
+  rcases h with ⟨h12, h34⟩ | h | h | h | h
+  · obtain ⟨hD, ht0, ht1⟩ := frac_opp _ _ h12
+    obtain ⟨hD', hs0, hs1⟩ := frac_opp _ _ h34
+    refine ⟨_, _, hs0, hs1, ht0, ht1, ?_, ?_⟩
+    · unfold orient at *; field_simp; ring
+    · unfold orient at *; field_simp; ring
+  · obtain ⟨s, h0, h1, hx, hy⟩ := onSeg_param _ _ _ h
+    exact ⟨s, 0, h0, h1, le_refl _, zero_le_one, by linarith, by linarith⟩
+  · obtain ⟨s, h0, h1, hx, hy⟩ := onSeg_param _ _ _ h
+    exact ⟨s, 1, h0, h1, zero_le_one, le_refl _, by linarith, by linarith⟩
+  · obtain ⟨t, h0, h1, hx, hy⟩ := onSeg_param _ _ _ h
+    exact ⟨0, t, le_refl _, zero_le_one, h0, h1, by linarith, by linarith⟩
+  · obtain ⟨t, h0, h1, hx, hy⟩ := onSeg_param _ _ _ h
+    exact ⟨1, t, zero_le_one, le_refl _, h0, h1, by linarith, by linarith⟩
+
+theorem collinear_param (a b q : P2 ℝ) (hab : ¬ (a.x = b.x ∧ a.y = b.y)) (ho : orient a b q = 0) :
+    ∃ l : ℝ, q.x = a.x + l * (b.x - a.x) ∧ q.y = a.y + l * (b.y - a.y) := by
+  unfold orient at ho
+  by_cases hxne : b.x - a.x = 0
+  · have hyne : b.y - a.y ≠ 0 := by
+      intro hy; exact hab ⟨by linarith, by linarith⟩
+    refine ⟨(q.y - a.y) / (b.y - a.y), ?_, ?_⟩
+    · rw [hxne, mul_zero, add_zero]
+      rw [hxne, zero_mul, zero_sub, neg_eq_zero, mul_eq_zero] at ho
+      rcases ho with ho | ho
+      · exact absurd ho hyne
+      · linarith
+    · field_simp; ring
+  · refine ⟨(q.x - a.x) / (b.x - a.x), ?_, ?_⟩
+    · field_simp; ring
+    · field_simp; linarith
+
+theorem opp_of_comb (u v t : ℝ) (ht0 : 0 < t) (ht1 : t < 1) (h : (1 - t) * u + t * v = 0) (hu : u ≠ 0) :
+    oppositeSigns u v = true := by
+  rw [oppositeSigns_iff]
+  have h1t : 0 < 1 - t := sub_pos.2 ht1
+  rcases lt_or_gt_of_ne hu with hu | hu
+  · right; refine ⟨hu, ?_⟩
+    by_contra hv
+    have hv' : v ≤ 0 := not_lt.1 hv
+    nlinarith [mul_neg_of_pos_of_neg h1t hu, mul_nonpos_of_nonneg_of_nonpos ht0.le hv']
+  · left; refine ⟨hu, ?_⟩
+    by_contra hv
+    have hv' : 0 ≤ v := not_lt.1 hv
+    nlinarith [mul_pos h1t hu, mul_nonneg ht0.le hv']
+
+theorem exists_imp_segMeet (a b c d : P2 ℝ) (h : SegMeetProp a b c d) : segMeet a b c d = true := by
+  unfold SegMeetProp at h
+  simp only [lit_zero, lit_one] at h
+  obtain ⟨s, t, hs0, hs1, ht0, ht1, hx, hy⟩ := h
+  rw [segMeet_iff]
+  rcases hs0.eq_or_lt with hs | hs0
+  · right; right; right; left
+    apply param_onSeg c d a t ht0 ht1 <;> [rw [← hs] at hx; rw [← hs] at hy] <;> linarith
+  rcases hs1.eq_or_lt with hs | hs1
+  · right; right; right; right
+    apply param_onSeg c d b t ht0 ht1 <;> [rw [hs] at hx; rw [hs] at hy] <;> linarith
+  rcases ht0.eq_or_lt with ht | ht0
+  · right; left
+    apply param_onSeg a b c s hs0.le hs1.le <;> [rw [← ht] at hx; rw [← ht] at hy] <;> linarith
+  rcases ht1.eq_or_lt with ht | ht1
+  · right; right; left
+    apply param_onSeg a b d s hs0.le hs1.le <;> [rw [ht] at hx; rw [ht] at hy] <;> linarith
+  -- interior parameters
+  have E1 : (1 - t) * orient a b c + t * orient a b d = 0 := by
+    unfold orient; linear_combination (-(b.x - a.x)) * hy + (b.y - a.y) * hx
+  have E2 : (1 - s) * orient c d a + s * orient c d b = 0 := by
+    unfold orient; linear_combination (d.x - c.x) * hy - (d.y - c.y) * hx
+  have hD : orient c d a - orient c d b = -(orient a b c - orient a b d) := by unfold orient; ring
+  by_cases h1 : orient a b c = 0
+  · -- everything is collinear
+    have h2 : orient a b d = 0 := by
+      rw [h1, mul_zero, zero_add, mul_eq_zero] at E1
+      rcases E1 with E1 | E1
+      · exact absurd E1 ht0.ne'
+      · exact E1
+    have h34 : orient c d a = orient c d b := by rw [h1, h2] at hD; linarith
+    by_cases hab : a.x = b.x ∧ a.y = b.y
+    · right; right; right; left
+      apply param_onSeg c d a t ht0.le ht1.le
+      · rw [← hab.1] at hx; linarith
+      · rw [← hab.2] at hy; linarith
+    · obtain ⟨lc, hcx, hcy⟩ := collinear_param a b c hab h1
+      obtain ⟨ld, hdx, hdy⟩ := collinear_param a b d hab h2
+      have hs_eq : s = lc + t * (ld - lc) := by
+        have ex : (s - (lc + t * (ld - lc))) * (b.x - a.x) = 0 := by
+          rw [hcx, hdx] at hx; linarith
+        have ey : (s - (lc + t * (ld - lc))) * (b.y - a.y) = 0 := by
+          rw [hcy, hdy] at hy; linarith
+        rcases mul_eq_zero.1 ex with h | h
+        · linarith
+        · rcases mul_eq_zero.1 ey with h' | h'
+          · linarith
+          · exact absurd ⟨by linarith, by linarith⟩ hab
+      by_cases hc01 : 0 ≤ lc ∧ lc ≤ 1
+      · right; left; exact param_onSeg a b c lc hc01.1 hc01.2 hcx hcy
+      by_cases hd01 : 0 ≤ ld ∧ ld ≤ 1
+      · right; right; left; exact param_onSeg a b d ld hd01.1 hd01.2 hdx hdy
+      -- lc and ld are outside [0,1], on different sides (s is strictly between them and in (0,1))
+      have hsides : (lc ≤ 0 ∧ 0 ≤ ld) ∨ (ld ≤ 0 ∧ 0 ≤ lc) := by
+        rcases lt_or_ge lc 0 with hc | hc
+        · left; refine ⟨hc.le, ?_⟩
+          by_contra hd; have hd := not_le.1 hd
+          nlinarith [mul_pos ht0 (neg_pos.2 hd), mul_pos (sub_pos.2 ht1) (neg_pos.2 hc)]
+        · have hc1 : 1 < lc := by
+            by_contra hh; exact hc01 ⟨hc, not_lt.1 hh⟩
+          right; refine ⟨?_, hc⟩
+          by_contra hd; have hd := not_le.1 hd
+          have hd1 : 1 < ld := by
+            by_contra hh; exact hd01 ⟨hd.le, not_lt.1 hh⟩
+          nlinarith [mul_pos ht0 (sub_pos.2 hd1), mul_pos (sub_pos.2 ht1) (sub_pos.2 hc1)]
+      have hne : ld - lc ≠ 0 := by
+        intro h
+        have : ld = lc := by linarith
+        rcases hsides with ⟨h1', h2'⟩ | ⟨h1', h2'⟩
+        · exact hc01 ⟨by linarith, by linarith⟩
+        · exact hc01 ⟨by linarith, by linarith⟩
+      obtain ⟨m0, m1⟩ := frac_between lc ld 0 hne hsides
+      right; right; right; left
+      apply param_onSeg c d a _ m0 m1
+      · rw [hcx, hdx]; field_simp; ring
+      · rw [hcy, hdy]; field_simp; ring
+  · left
+    have hopp := opp_of_comb _ _ t ht0 ht1 E1 h1
+    refine ⟨hopp, ?_⟩
+    have h3 : orient c d a ≠ 0 := by
+      intro h3
+      have h4 : orient c d b = 0 := by
+        rw [h3, mul_zero, zero_add, mul_eq_zero] at E2
+        rcases E2 with E2 | E2
+        · exact absurd E2 hs0.ne'
+        · exact E2
+      rw [h3, h4, sub_self] at hD
+      have : orient a b c = orient a b d := by linarith
+      rw [oppositeSigns_iff, ← this] at hopp
+      rcases hopp with ⟨h, h'⟩ | ⟨h, h'⟩ <;> linarith
+    exact opp_of_comb _ _ s hs0 hs1 E2 h3
+
+/-- **the decision procedure means what it should**: `segMeet` holds iff the two closed segments share a point -/
+theorem segMeet_iff_exists (a b c d : P2 ℝ) : segMeet a b c d = true ↔ SegMeetProp a b c d :=
+  ⟨segMeet_imp_exists a b c d, exists_imp_segMeet a b c d⟩
+
 end C15
 end
